@@ -321,6 +321,14 @@ def run_solver_history(hist, opts=None):
     push_env(env)
     try:
         F = _forms(env)
+        # a second solver object is alive during the whole history (one assertion, one open level): neither object
+        # may see the other's assertions or levels, and a new object starts empty
+        other = BruteSolver(env, **(opts or {}))
+        if list(other.assertions) or other._backtrack_points:
+            return Outcome(violation=("solver:new-object:not-empty", "a new solver object reports assertions %r / levels %r"
+                                      % (list(other.assertions), list(other._backtrack_points))))
+        other.add_assertion(F["b"])
+        other.push()
         solver = BruteSolver(env, **(opts or {}))
         m_int = env.formula_manager.Plus(env.formula_manager.Symbol("c16i", INT_T), env.formula_manager.Int(1))
         refused = env.formula_manager.Symbol("c16refused")
@@ -416,6 +424,15 @@ def run_solver_history(hist, opts=None):
         if got != exp:
             return Outcome(violation=(hist_sig(hist, "assertions"),
                                       "history %s: assertions %r but the live ones are %r" % (list(hist), got, exp)))
+        try:
+            oa = list(other.assertions)
+            od = other.native.depth()
+        except Exception as e:
+            return Outcome(violation=(hist_sig(hist, "other-object"), "history %s: the second solver object raised %r" % (list(hist), e)))
+        if oa != [F["b"]] or od != 1:
+            return Outcome(violation=(hist_sig(hist, "other-object"),
+                                      "history %s on one solver object changed another one: it reports %r at depth %d instead of "
+                                      "[b] at depth 1" % (list(hist), oa, od)))
         if nat != exp or ndepth != len(levels) - 1:
             return Outcome(violation=(hist_sig(hist, "native"),
                                       "history %s: the underlying solver holds %r at depth %d, live %r at depth %d"
